@@ -140,7 +140,13 @@ impl UdpSocket {
         Ok(Self(binder(addr)?))
     }
     pub fn local_addr(&self) -> io::Result<SocketAddr> { self.0.local_addr() }
-    pub fn try_send_to(&self, buf: &[u8], to: SocketAddr) -> io::Result<usize> { self.0.try_send_to(buf, to) }
+    pub fn try_send_to(&self, buf: &[u8], to: SocketAddr) -> io::Result<usize> {
+        // a real socket reports WouldBlock when its buffer is momentarily full; the simulator decides when
+        if IO_YIELD.with(|c| c.borrow_mut().as_mut().map(|f| f()).unwrap_or(false)) {
+            return Err(io::Error::new(io::ErrorKind::WouldBlock, "simulated full send buffer"));
+        }
+        self.0.try_send_to(buf, to)
+    }
     pub async fn send_to(&self, buf: &[u8], to: SocketAddr) -> io::Result<usize> {
         // a real socket's send can be Pending (full buffer): the simulator may make this one yield once
         if IO_YIELD.with(|c| c.borrow_mut().as_mut().map(|f| f()).unwrap_or(false)) {
@@ -160,7 +166,21 @@ impl UdpSocket {
     }
     pub fn try_recv_from(&self, buf: &mut [u8]) -> io::Result<(usize, SocketAddr)> { self.0.try_recv_from(buf) }
     pub async fn readable(&self) -> io::Result<()> { poll_fn(|cx| self.0.poll_readable(cx)).await }
-    pub async fn writable(&self) -> io::Result<()> { Ok(()) }
+    /// Becomes writable after one trip through the scheduler (callers only wait here after a WouldBlock).
+    pub async fn writable(&self) -> io::Result<()> {
+        let mut yielded = false;
+        poll_fn(|cx| {
+            if yielded {
+                Poll::Ready(())
+            } else {
+                yielded = true;
+                cx.waker().wake_by_ref();
+                Poll::Pending
+            }
+        })
+        .await;
+        Ok(())
+    }
     pub async fn recv_from(&self, buf: &mut [u8]) -> io::Result<(usize, SocketAddr)> {
         loop {
             self.readable().await?;
